@@ -67,7 +67,7 @@ def chunks(tier):
                 geo = {k: lot[k] for k in ("length", "width", "b_min", "b_max_x", "b_max_y")}
             for wv in ((0, 1) if full else (0,)):
                 out.append(("A5", {"fam": "A5", "method": method, "geo": geo, "full": full, "wv": wv,
-                                   "flow": "system" if i % 2 else "borehole"}))
+                                   "flow": "system" if i % 2 else "borehole", "load_years": [2019, 2020, 2021] if (i + wv) % 2 == 0 else None}))
     rw_lots = [
         ({"property_boundary": [[2.0, 3.0], [42.0, 3.0], [42.0, 28.0], [2.0, 28.0]], "no_go_boundaries": [],
           "min_spacing": 5.0, "max_spacing": 12.0, "spacing_step": 0.5, "min_rotation": -90.0, "max_rotation": 0.0,
@@ -83,7 +83,7 @@ def chunks(tier):
         step = 4
         for c0 in range(1, nmax + 2, step):
             out.append(("A6", {"fam": "A6", "method": "rowwise", "geo": geo, "nmax": nmax, "c0": c0, "cn": step,
-                               "flow": "system" if c0 % 2 == 0 else "borehole"}))
+                               "flow": "system" if c0 % 2 == 0 else "borehole", "load_years": [2019, 2020] if c0 % 3 == 0 else None}))
     return out
 
 
